@@ -3,12 +3,17 @@ from checks.pool_common import *
 
 
 def plan(tier):
+    # C07 uses the sync-only configuration (racy=False): task ownership is decided under the side condition "no data race" (C15 c), which makes
+    # context switches at synchronisation operations complete; the racy window of stop() is C08's subject.
+    # (owner program, max threads, K, complete runs?, cube bits)   ops: 1 start(task), 2 clear(), 3 stop(), 4 wait for all submitted tasks; a final stop() is always appended
     if tier == 'quick':
-        progs = [((1, 1, 4), 1, 26, False), ((1, 2, 1), 1, 26, False)]
+        progs = [((1, 1, 2), 1, 20, False, 4), ((1, 4), 1, 20, True, 3)]
     else:
-        progs = [((1, 4), 1, 30, True), ((1, 1, 4), 1, 44, True), ((1, 2, 1), 1, 30, False), ((1, 1), 2, 34, False), ((1, 3, 1, 4), 1, 36, False)]
-    return [pool_query('own_%s_mt%d_k%d' % (''.join(str(o) for o in ops), mt, K), ops, mt, K, prefix_only=not full,
-                       expect_reach=('owner finished', 'all threads finished') if full else ()) for ops, mt, K, full in progs]
+        progs = [((1, 4), 1, 22, True, 3), ((1, 1, 4), 1, 32, True, 4), ((1, 1, 2), 1, 26, False, 4), ((1, 2, 1, 4), 1, 30, False, 4), ((1, 1), 2, 28, False, 4), ((1, 3, 1, 4), 1, 34, False, 4)]
+    qs = []
+    for ops, mt, K, full, bits in progs:
+        qs += cubed(('own_%s_mt%d_k%d' % (''.join(str(o) for o in ops), mt, K), ops, mt, K), dict(racy=False, prefix_only=not full, expect_reach=('owner finished', 'all threads finished') if full else ()), bits, nthr_choices=min(mt, 2) + 1)
+    return qs
 
 
 def run(tier, seed):
